@@ -178,6 +178,122 @@ fn judge_edge(v: &Val, pre_len: usize, rec: &mut Recorder) {
     }
 }
 
+/// Several values written into ONE writer, one after the other (a caller that assembles a TLV by
+/// hand writes a `Type`, a `u16` length and a byte slice): after every write the writer holds its
+/// earlier contents followed by the encodings so far, and the returned count is the size of the
+/// value just written. Nothing about an earlier value may change when a later one is written.
+fn judge_sequence(vals: &[Val], pre: &Blob, rec: &mut Recorder) {
+    let case = format!("seq:{}|{}", vals.iter().map(|v| v.text()).collect::<Vec<_>>().join(";"), pre.text());
+    rec.case(hash_bytes(case.as_bytes()), true);
+    let prefill = pre.bytes();
+    let mut want = prefill.clone();
+    let encs: Vec<Vec<u8>> = vals.iter().map(|v| v.encode().unwrap_or_default()).collect();
+    if want.len() + encs.iter().map(|e| e.len()).sum::<usize>() > MAX_PAYLOAD {
+        return;
+    }
+    rec.class(&format!("oracle:sequence-of-{}|{}", vals.len(), vals.iter().map(|v| v.kind()).collect::<Vec<_>>().join(",")), || case.clone());
+    let blobs: Vec<Vec<u8>> = vals.iter().map(blob_bytes).collect();
+    // the writer is only looked into at the end (there is no way to read it without consuming it,
+    // and replacing it half-way would reset whatever it remembers); a mismatch is then localised
+    // by running the prefixes of the sequence
+    let run = |upto: usize| {
+        guard(|| {
+            let mut w = Writer::from(prefill.clone());
+            let mut rets: Vec<Result<usize, String>> = Vec::new();
+            for (v, b) in vals.iter().zip(&blobs).take(upto) {
+                rets.push(crate::hist::item(v, b).write_to(&mut w).map_err(|e| format!("{:?}", e.kind())));
+            }
+            (rets, w.finish())
+        })
+    };
+    rec.events(vals.len() as u64);
+    let viol = |rec: &mut Recorder, rule: &str, d: String| {
+        rec.violation(&format!("{}:sequence", rule), case.clone(), format!("sequence|{}", vals.iter().map(|v| v.kind()).collect::<Vec<_>>().join(",")), format!("{} for the values [{}] written one after the other into one writer holding {} bytes: {}", rule, vals.iter().map(|v| v.text().chars().take(40).collect::<String>()).collect::<Vec<_>>().join("; "), prefill.len(), d));
+    };
+    for e in &encs {
+        want.extend_from_slice(e);
+    }
+    match run(vals.len()) {
+        Err(m) => viol(rec, "panic", m),
+        Ok((rets, out)) => {
+            for (i, r) in rets.iter().enumerate() {
+                match r {
+                    Ok(n) if *n != encs[i].len() => {
+                        viol(rec, "returned-count", format!("write #{} ({}) returned {}, its encoding has {} bytes", i + 1, vals[i].kind(), n, encs[i].len()));
+                        return;
+                    }
+                    Err(k) => {
+                        viol(rec, "refused-encodable", format!("write #{} ({}) failed with {} although the writer is below its limit", i + 1, vals[i].kind(), k));
+                        return;
+                    }
+                    _ => {}
+                }
+            }
+            if out != want {
+                // the shortest prefix of the sequence that already goes wrong
+                let mut first = vals.len();
+                for k in 1..vals.len() {
+                    let w: Vec<u8> = prefill.iter().copied().chain(encs[..k].iter().flatten().copied()).collect();
+                    if !matches!(run(k), Ok((_, o)) if o == w) {
+                        first = k;
+                        break;
+                    }
+                }
+                let at = out.iter().zip(&want).position(|(p, q)| p != q);
+                viol(rec, "appended-bytes", format!("the writer ends up with {} bytes, expected its earlier contents followed by the {} encodings = {} bytes; first difference at byte {:?} (the prefill ends at {}); the first {} writes are enough to go wrong", out.len(), vals.len(), want.len(), at, prefill.len(), first));
+            }
+        }
+    }
+}
+
+fn gen_sequence(idx: u64, rng: &mut Rng) -> (Vec<Val>, Blob) {
+    let small = |rng: &mut Rng| -> Val {
+        loop {
+            let v = match rand_val(rng, false) {
+                Val::Custom(b, _) => Val::Bytes(b),
+                v => v,
+            };
+            if v.encode().map(|e| e.len() <= 600).unwrap_or(false) {
+                return v;
+            }
+        }
+    };
+    let mut vals: Vec<Val> = Vec::new();
+    match idx % 4 {
+        0 => {
+            // a TLV assembled by hand: type, 16-bit length (right, wrong, or signed), value
+            let n = rng.below(40) as usize;
+            vals.push(Val::Type(rng.below(12) as usize));
+            let l = match rng.below(4) {
+                0 => n as u16,
+                1 => n as u16 + 1 + rng.below(300) as u16,
+                2 => 0,
+                _ => rng.u16(),
+            };
+            vals.push(if rng.coin() { Val::U16(l) } else { Val::I16(l as i16) });
+            vals.push(Val::Bytes(Blob::new(rng.next() >> 16, n)));
+            if rng.coin() {
+                vals.push(small(rng));
+            }
+        }
+        1 => {
+            // the same with a u8 type and other integer widths in between
+            vals.push(Val::U8(rng.u8()));
+            vals.push(rng.pick(&[Val::U16(3), Val::U32(3), Val::U8(0), Val::U16(0xFFFF)]).clone());
+            vals.push(Val::Bytes(Blob::new(rng.next() >> 16, rng.below(20) as usize)));
+            vals.push(Val::Type(rng.below(12) as usize));
+        }
+        _ => {
+            let k = 2 + rng.below(5);
+            for _ in 0..k {
+                vals.push(small(rng));
+            }
+        }
+    }
+    let pre = Blob::new(rng.next() >> 16, *rng.pick(&[0usize, 0, 1, 16, 300]));
+    (vals, pre)
+}
+
 const EDGE_VALUES: u64 = 44;
 const EDGE_FILLS: u64 = 56;
 
@@ -368,6 +484,7 @@ impl Monitor for C20 {
             exhaustive("calling-context", 2),
             exhaustive("c20-arrays", if tier == Tier::Miri { 2 } else { 14 }),
             exhaustive("c20-edge", if tier == Tier::Miri { 0 } else { EDGE_VALUES * EDGE_FILLS }),
+            stream("c20-seq", tier.n(20, 200_000, 20_000_000)),
         ]
     }
     fn run_case(&self, stream: &str, idx: u64, seed: u64, rec: &mut Recorder) {
@@ -391,6 +508,11 @@ impl Monitor for C20 {
             return;
         }
         let mut rng = Rng::for_case(seed, stream_id(stream), idx);
+        if stream == "c20-seq" {
+            let (vals, pre) = gen_sequence(idx, &mut rng);
+            judge_sequence(&vals, &pre, rec);
+            return;
+        }
         if stream == "c20-edge" {
             // writers holding 65496 ..= 65551 bytes x small values of every kind
             let v = edge_val(idx % EDGE_VALUES, &mut rng);
@@ -420,6 +542,14 @@ impl Monitor for C20 {
         ]
     }
     fn replay(&self, case: &str, rec: &mut Recorder) {
+        if let Some(rest) = case.strip_prefix("seq:") {
+            if let Some((vs, p)) = rest.rsplit_once('|') {
+                let vals: Option<Vec<Val>> = vs.split(';').map(Val::parse).collect();
+                if let (Some(vals), Some(p)) = (vals, Blob::parse(p)) {
+                    judge_sequence(&vals, &p, rec);
+                }
+            }
+        }
         if let Some(rest) = case.strip_prefix("edge:") {
             if let Some((v, p)) = rest.rsplit_once('|') {
                 if let (Some(v), Some(p)) = (Val::parse(v), Blob::parse(p)) {
